@@ -190,6 +190,7 @@ impl Walk<'_> {
             spec: self.spec.clone(),
             cfg: self.cfg.clone(),
             acts: r.acts.clone(),
+            pre: None,
         };
         if self.prop == "C08" {
             let extra = single::ignore_differential(&case, &r);
